@@ -3,6 +3,7 @@ C12 — property theorems (nothing but statements, their short proofs from the l
 non-vacuity examples).  Helper lemmas live in Proofs.lean / Refine.lean / SpecFacts.lean.
 -/
 import GoZero.C12.Refine
+import GoZero.C12.SpecFacts
 namespace GoZero.C12
 
 /-- **C12, main theorem.**  For every wheel size `n ≥ 1` and every sequence of
@@ -35,6 +36,81 @@ theorem reachable_abs (n : Nat) (hn : 0 < n) (ops : List Op) :
   have := key (TW.init n) (init_wf n hn)
   simpa [abs, TW.init] using this
 
+/-! ### The property in its own words, for the wheel itself
+
+`ops₀` is an arbitrary history (any sets, moves, removes, ticks, drains; the wheel position may have
+wrapped any number of times); then the timer is set / moved; `ops` are the following operations, none of
+which sets, moves or removes `k` (and no drain). -/
+
+/-- **Set timers fire exactly once, at the ⌊d/interval⌋-th following tick, with the set value.** -/
+theorem set_fires_exactly_at_due (n : Nat) (hn : 0 < n) (ops₀ ops : List Op) (k v s : Nat) (hs : 1 ≤ s)
+    (hun : ∀ op ∈ ops, Spec.touches k op = false) (i v' : Nat) :
+    (k, v') ∈ (run (TW.init n) (ops₀ ++ .set k v s :: ops)).getD (ops₀.length + 1 + i) [] ↔
+      (v' = v ∧ i < ops.length ∧ Spec.isTick (ops.getD i .drain) = true ∧ Spec.ticksIn (ops.take (i + 1)) = s) := by
+  rw [tw_refines_timer_table n hn, Spec.run_append]
+  have hl : (Spec.run [] ops₀).length = ops₀.length := Spec.run_length _ _
+  have e : ops₀.length + 1 + i = (Spec.run [] ops₀).length + (i + 1) := by omega
+  rw [e, Spec.getD_append_len]
+  simp only [Spec.run, List.getD_cons_succ]
+  have hnd := Spec.step_keys_nodup _ (Spec.reachable_keys_nodup ops₀) (.set k v s)
+  have hm : (⟨k, v, s⟩ : Spec.Timer) ∈ (Spec.step (ops₀.foldl (fun t op => (Spec.step t op).1) []) (.set k v s)).1 := by
+    simp only [Spec.step]
+    have : (if s = 0 then 1 else s) = s := by split <;> omega
+    rw [this]
+    exact Spec.set_pending _ k v s
+  exact Spec.pending_fires_exactly_at_due _ hnd k v s hm hs ops hun i v'
+
+/-- **Moved timers fire exactly once, at the ⌊d/interval⌋-th tick after the move, with their latest
+value** (`hpend`: the key was pending with value `v` when it was moved). -/
+theorem move_fires_exactly_at_due (n : Nat) (hn : 0 < n) (ops₀ ops : List Op) (k v s0 s : Nat) (hs : 1 ≤ s)
+    (hpend : (⟨k, v, s0⟩ : Spec.Timer) ∈ ops₀.foldl (fun t op => (Spec.step t op).1) [])
+    (hun : ∀ op ∈ ops, Spec.touches k op = false) (i v' : Nat) :
+    (k, v') ∈ (run (TW.init n) (ops₀ ++ .move k s :: ops)).getD (ops₀.length + 1 + i) [] ↔
+      (v' = v ∧ i < ops.length ∧ Spec.isTick (ops.getD i .drain) = true ∧ Spec.ticksIn (ops.take (i + 1)) = s) := by
+  rw [tw_refines_timer_table n hn, Spec.run_append]
+  have hl : (Spec.run [] ops₀).length = ops₀.length := Spec.run_length _ _
+  have e : ops₀.length + 1 + i = (Spec.run [] ops₀).length + (i + 1) := by omega
+  rw [e, Spec.getD_append_len]
+  simp only [Spec.run, List.getD_cons_succ]
+  have hnd := Spec.step_keys_nodup _ (Spec.reachable_keys_nodup ops₀) (.move k s)
+  have hm : (⟨k, v, s⟩ : Spec.Timer) ∈ (Spec.step (ops₀.foldl (fun t op => (Spec.step t op).1) []) (.move k s)).1 := by
+    simp only [Spec.step]
+    have : ¬ s = 0 := by omega
+    simp only [this, if_false]
+    exact Spec.move_pending _ k v s0 s hpend
+  exact Spec.pending_fires_exactly_at_due _ hnd k v s hm hs ops hun i v'
+
+/-- **A removed timer never fires** (until the key is set again). -/
+theorem removed_never_fires (n : Nat) (hn : 0 < n) (ops₀ ops : List Op) (k : Nat)
+    (hun : ∀ op ∈ ops, Spec.touches k op = false) (i v' : Nat) :
+    (k, v') ∉ (run (TW.init n) (ops₀ ++ .remove k :: ops)).getD (ops₀.length + 1 + i) [] := by
+  rw [tw_refines_timer_table n hn, Spec.run_append]
+  have hl : (Spec.run [] ops₀).length = ops₀.length := Spec.run_length _ _
+  have e : ops₀.length + 1 + i = (Spec.run [] ops₀).length + (i + 1) := by omega
+  rw [e, Spec.getD_append_len]
+  simp only [Spec.run, List.getD_cons_succ]
+  have hab : k ∉ Spec.keys (Spec.step (ops₀.foldl (fun t op => (Spec.step t op).1) []) (.remove k)).1 :=
+    Spec.remove_absent _ k
+  intro h
+  rcases Spec.getD_mem_or_nil (Spec.run _ ops) i with hmem | hnil
+  · exact Spec.absent_never_fires _ k hab ops hun _ hmem v' h
+  · rw [hnil] at h; cases h
+
+/-- **Drain delivers each pending timer exactly once** (and nothing stays pending): the callback gets
+exactly the pending table, whose keys are pairwise distinct. -/
+theorem drain_each_once (n : Nat) (hn : 0 < n) (ops₀ : List Op) :
+    let pending := ops₀.foldl (fun t op => (Spec.step t op).1) []
+    (run (TW.init n) (ops₀ ++ [Op.drain])).getD ops₀.length [] = pending.map (fun x => (x.key, x.value))
+    ∧ (pending.map (·.key)).Nodup
+    ∧ (ops₀ ++ [Op.drain]).foldl (fun t op => (Spec.step t op).1) [] = [] := by
+  intro pending
+  rw [tw_refines_timer_table n hn, Spec.run_append]
+  have hl : (Spec.run [] ops₀).length = ops₀.length := Spec.run_length _ _
+  have e : ops₀.length = (Spec.run [] ops₀).length + 0 := by omega
+  rw [e, Spec.getD_append_len]
+  refine ⟨by simp [Spec.run, Spec.step, Spec.drain, pending], Spec.reachable_keys_nodup ops₀, ?_⟩
+  simp [List.foldl_append, Spec.step, Spec.drain]
+
 /-! ### The defect of the pinned commit (kept as machine-checked witnesses)
 
 `moveTask` compared absolute slot indices.  Both witnesses were replayed on the real code
@@ -63,6 +139,17 @@ example : WF { n := 10, tickedPos := 5, entries := [{ key := 1, value := 7, slot
   ⟨by decide, by decide, by simp⟩
 
 example : (run (TW.init 10) (List.replicate 6 .tick ++ [.set 1 7 8, .move 1 2, .tick, .tick])).getLast? = some [(1, 7)] := by
+  decide
+
+/-- the hypotheses of `set_fires_exactly_at_due` are met by a concrete wrapped-position history, and its
+right-hand side is true there (i = 7 is the 8th tick after the set). -/
+example : (1, 7) ∈ (run (TW.init 10) (List.replicate 6 .tick ++ .set 1 7 8 :: List.replicate 8 .tick)).getD (6 + 1 + 7) [] := by
+  decide
+
+example : ∀ op ∈ List.replicate 8 Op.tick, Spec.touches 1 op = false := by decide
+
+/-- `move_fires_exactly_at_due`'s pending hypothesis is satisfiable. -/
+example : (⟨1, 7, 8⟩ : Spec.Timer) ∈ (List.replicate 6 Op.tick ++ [.set 1 7 8]).foldl (fun t op => (Spec.step t op).1) [] := by
   decide
 
 end GoZero.C12
